@@ -254,9 +254,9 @@ def generator_stream(run, nprog, variant):
     for i in range(nprog):
         lang = pipeline.LANGS[i % 4]
         specs.append({"lang": lang, "seed": run.seed * 100003 + i, "switches": (0, 0, 0, 0), "max_depth": 6,
-                      "stages": ["gen", "overwrite"] if i % 2 else ["gen"], "export": False, "cap": 120,
+                      "stages": ["gen", "overwrite"] if i % 2 else ["gen"], "export": False, "cap": 60 if run.tier == "quick" else 120,
                       "plugins": ["plug_unify"], "unify_variant": variant})
-    results = pipeline.run_many(specs)
+    results = pipeline.run_many(specs, workers=20 if nprog <= 20 else None)
     rqs, impl = [], []
     seen = set()
     calls = cut = exc = 0
